@@ -28,4 +28,9 @@ var Props = []*h.Prop{
 		Real:        realStore,
 		Stub:        stubStore,
 		Assumptions: []string{"crash model is process kill: completed system calls survive, user-space buffers are lost (goProbe never fsyncs; power loss is out of scope)", "simfs agrees with Linux on the operation vocabulary used (differential self-test)"}},
+	{ID: "C05", Run: c05,
+		Rule:        "one evaluation = one generated write-out history with one injected error enumerated at every file-system operation of every write-out (errno rotated per op in the quick tier, every applicable errno in the thorough tier), a partial write + ENOSPC at every write, sticky disk-full spans, and (thorough) fault sequences across consecutive write-outs; non-trivial = at least one fault fired inside a write-out; distinct = distinct event-log hash",
+		Real:        realStore,
+		Stub:        stubStore,
+		Assumptions: []string{"only errors a Linux kernel can return for that operation on a regular file are injected (no short reads, no EINTR)", "an error that strikes at or after the commit point (metadata rename) may leave the block committed although the call reports failure: un-acknowledged data may be old or new, never damaged"}},
 }
